@@ -845,10 +845,31 @@ func runProperty(prop *PropSpec, tier string, seed int, verbose int, only string
 			if !matched {
 				reps = append(reps, v)
 			}
-			if len(reps) >= 2 {
+			if len(reps) >= 2 && violJob[v].Spec.Abstracts == "" {
+				break
+			}
+			if len(reps) >= 12 {
 				break
 			}
 		}
+		abstracted := len(reps) > 0 && violJob[reps[0]].Spec.Abstracts != ""
+		if abstracted {
+			// most diverse first: distinct choice vectors
+			seen := map[string]bool{}
+			var div, rest []*Violation
+			for _, v := range reps {
+				c := fmt.Sprint(v.Choices)
+				if seen[c] {
+					rest = append(rest, v)
+				} else {
+					seen[c] = true
+					div = append(div, v)
+				}
+			}
+			reps = append(div, rest...)
+		}
+		groupReproduced := 0
+		var spurious []string
 		if len(reps) == 0 {
 			reps = g.viols[:1]
 		}
@@ -874,11 +895,19 @@ func runProperty(prop *PropSpec, tier string, seed int, verbose int, only string
 				ok = strings.Contains(o.Output, "WARNING: DATA RACE")
 			}
 			if !ok {
+				if abstracted && res == "pass" {
+					spurious = append(spurious, dir)
+					continue
+				}
 				notReproduced++
 				inconAll = append(inconAll, fmt.Sprintf("counterexample for %s did not reproduce natively (replay result %q; see %s/output.txt): encoding or stub defect", k, res, dir))
 				continue
 			}
 			reproduced++
+			groupReproduced++
+			if abstracted && groupReproduced > 2 {
+				break
+			}
 			var kf *KnownFinding
 			for i := range known {
 				if known[i].matches(id, v) {
@@ -897,6 +926,10 @@ func runProperty(prop *PropSpec, tier string, seed int, verbose int, only string
 			fmt.Printf("VIOLATION property=%s replay=%s\n", id, dir)
 			fmt.Printf("  harness %s: %s\n  inputs: %v\n  choices: %v\n  notes: %v\n", v.Harness, v.Msg, v.Inputs, v.Choices, v.Notes)
 			exit = 1
+		}
+		if abstracted && groupReproduced == 0 && len(spurious) > 0 {
+			notReproduced += len(spurious)
+			inconAll = append(inconAll, fmt.Sprintf("%d counterexamples for %s exist under the abstraction of %s but none of those tried replays with the real function (e.g. %s): neither shown nor refuted", len(spurious), k, violJob[reps[0]].Spec.Abstracts, spurious[0]))
 		}
 	}
 
@@ -972,26 +1005,26 @@ func runProperty(prop *PropSpec, tier string, seed int, verbose int, only string
 		"explanation": "Bounded symbolic execution of the real code: Go SSA of /repo's working tree (loaded on this run) interpreted over SMT bit-vector/FP terms; " +
 			"states = feasible symbolic paths explored (each stands for all inputs satisfying its path condition), transitions = symbolic branch decisions + forks; " +
 			"every assertion is decided by an SMT query over the full path condition (unsat = holds for all inputs on that path).",
-		"functions_encoded":       fnames,
-		"functions_encoded_count": len(fnames),
-		"ssa_instructions_executed": agg.instrs,
-		"program_functions_loaded":  totalFuncs,
-		"bounds":                  prop.Bounds,
-		"outside_the_claim":       prop.Outside,
-		"per_harness":             perHarness,
-		"jobs":                    jobsDesc,
-		"paths_by_end":            agg.byEnd,
-		"queries_discharged":      map[string]int{"total": agg.queries, "sat": agg.sat, "unsat": agg.unsat, "unknown": agg.unknown, "errors": agg.errors},
-		"solver_seconds":          round3(agg.solverS),
-		"solver":                  "z3 5.1.0 (z3-new; one incremental process per worker); cross-checked against z3 4.8.12 and cvc5 1.0 by `gosym selfcheck`",
-		"assertion_sites":         assertList,
-		"counterexamples_found":   len(viols),
+		"functions_encoded":                   fnames,
+		"functions_encoded_count":             len(fnames),
+		"ssa_instructions_executed":           agg.instrs,
+		"program_functions_loaded":            totalFuncs,
+		"bounds":                              prop.Bounds,
+		"outside_the_claim":                   prop.Outside,
+		"per_harness":                         perHarness,
+		"jobs":                                jobsDesc,
+		"paths_by_end":                        agg.byEnd,
+		"queries_discharged":                  map[string]int{"total": agg.queries, "sat": agg.sat, "unsat": agg.unsat, "unknown": agg.unknown, "errors": agg.errors},
+		"solver_seconds":                      round3(agg.solverS),
+		"solver":                              "z3 5.1.0 (z3-new; one incremental process per worker); cross-checked against z3 4.8.12 and cvc5 1.0 by `gosym selfcheck`",
+		"assertion_sites":                     assertList,
+		"counterexamples_found":               len(viols),
 		"counterexamples_replayed_reproduced": reproduced,
 		"counterexamples_not_reproduced":      notReproduced,
-		"known_findings_reported": len(knownReported),
-		"lockset_locations_tracked": lockLocations,
-		"inconclusive":            inconAll,
-		"load_seconds":            round3(loadSecs),
+		"known_findings_reported":             len(knownReported),
+		"lockset_locations_tracked":           lockLocations,
+		"inconclusive":                        inconAll,
+		"load_seconds":                        round3(loadSecs),
 	}
 	_ = Pmain
 	ev := Evidence{PropertyID: id, Tier: tier, Seed: seed, Level: "model_checking", Coverage: cov,
